@@ -132,7 +132,8 @@ pub struct Excl {
 
 impl Default for Excl {
     fn default() -> Self {
-        Self { length_set_by_name: true, spread_under_proto_accessor: true, forin_over_proxy_inherited: true, named_prop_shape_rollback: true }
+        // C14-a, C14-b/c and C14-d are repaired in /repo (known.d: status fixed): their exclusions are off
+        Self { length_set_by_name: false, spread_under_proto_accessor: false, forin_over_proxy_inherited: false, named_prop_shape_rollback: true }
     }
 }
 
